@@ -4,7 +4,6 @@ pub mod input_attr;
 mod out_trait;
 
 use input_attr::EntraitTraitAttr;
-use proc_macro2::Span;
 
 use crate::analyze_generics::TraitFn;
 use crate::entrait_trait::input_attr::ImplTrait;
@@ -299,10 +298,8 @@ fn gen_delegation_method<'s>(
         }
         (Some(ImplTrait(_, impl_trait_ident)), Some(SpanOpt(Delegate::ByRef(ref_delegate), _))) => {
             let plus_sync = if contains_async.0 {
-                Some(TokenPair(
-                    syn::token::Plus::default(),
-                    syn::Ident::new("Sync", Span::call_site()),
-                ))
+                let sync: syn::Path = syn::parse_quote! { ::core::marker::Sync };
+                Some(TokenPair(syn::token::Plus::default(), sync))
             } else {
                 None
             };
@@ -512,10 +509,8 @@ impl ImplWhereClause<'_, '_> {
     }
 
     fn plus_sync(&self) -> TokenPair<impl ToTokens, impl ToTokens> {
-        TokenPair(
-            syn::token::Plus(self.span),
-            syn::Ident::new("Sync", self.span),
-        )
+        let sync: syn::Path = syn::parse_quote! { ::core::marker::Sync };
+        TokenPair(syn::token::Plus(self.span), sync)
     }
 }
 
